@@ -54,6 +54,8 @@ const (
 	tcInteresting
 	tcMixedUnsorted
 	tcUnintTwo
+	tcEmptyValue // an interesting key whose value is the empty string: still a tag
+	tcValueTrue  // values that look like flags
 	numTagClasses
 )
 
@@ -67,6 +69,10 @@ func classTags(c int) []Tag {
 		return []Tag{{"source", "x"}, {"amenity", "cafe"}}
 	case tcUnintTwo:
 		return []Tag{{"created_by", "JOSM"}, {"attribution", "a"}}
+	case tcEmptyValue:
+		return []Tag{{"name", ""}}
+	case tcValueTrue:
+		return []Tag{{"source", "true"}, {"ref", "true"}}
 	}
 	return nil
 }
